@@ -46,13 +46,16 @@ def fuel_obj(name='conventional_jetA'):
     return _state[key]
 
 
-def model(flows=None, apu='running', aclass='narrow', mode_order='idle_first'):
+EDB_FORMS = ('reported', 'partial_idle', 'partial_takeoff', 'unreported')
+
+
+def model(flows=None, apu='running', aclass='narrow', mode_order='idle_first', edb='reported'):
     """Sample B738 model with integer LTO fuel flows (g/s), APU variant and class; the per-mode LTO sections are
     listed idle .. take-off or (InventoryGen.tla ModeOrders) take-off .. idle, the ICAO databank's order."""
     from AEIC.config import config
     from AEIC.performance.models import PerformanceModel
 
-    key = ('pm', None if flows is None else tuple(sorted(flows.items())), apu, aclass, mode_order)
+    key = ('pm', None if flows is None else tuple(sorted(flows.items())), apu, aclass, mode_order, edb)
     if key in _state:
         return _state[key]
     if 'toml' not in _state:
@@ -75,7 +78,24 @@ def model(flows=None, apu='running', aclass='narrow', mode_order='idle_first'):
     with warnings.catch_warnings():
         warnings.simplefilter('ignore')
         pm = PerformanceModel.from_data(d)
-    _ = pm.edb  # read the engine database once per model
+    e = pm.edb  # read the engine database once per model
+    if edb != 'reported':
+        # InventoryGen.tla EdbForms: the engine data bank marks an nvPM value that was not reported with -1 - for all
+        # thrust modes or for some only; the number indices are not reported in these forms
+        import dataclasses
+
+        from AEIC.performance.types import ThrustModeValues as TMV
+
+        m = [float(x) for x in e.nvPM_mass_matrix.as_array()]
+        if min(m) < 0:
+            m = [5.0, 5.5, 6.0, 6.5]
+        if edb == 'partial_idle':
+            m[0] = -1.0
+        elif edb == 'partial_takeoff':
+            m[3] = -1.0
+        else:
+            m = [-1.0] * 4
+        pm.__dict__['edb'] = dataclasses.replace(e, nvPM_mass_matrix=TMV(*m), nvPM_num_matrix=TMV(-1.0, -1.0, -1.0, -1.0))
     _state[key] = pm
     return pm
 
